@@ -1,20 +1,28 @@
 #!/bin/bash
-# tools/seedtest.sh <patch.diff> <ID> [<ID>...]  -- applies a seeded change to /repo, checks that it builds and passes the
-# baseline suite, runs the given checks (quick tier) and restores /repo. Prints one line per check.
+# tools/seedtest.sh <patch.diff> <ID> [<ID>...]
+# Runs checks against a seeded change WITHOUT touching /repo: a scratch worktree of /repo (/tmp/seedrepo) gets the patch, and a
+# scratch copy of /verif (/tmp/vcopy, harness go.mod pointed at the worktree) runs the checks. Prints one line per check.
 set -u
-patch=$1; shift
-cd /repo || exit 2
-if [ -n "$(git status --porcelain)" ]; then echo "SEEDTEST: /repo is not clean"; exit 2; fi
+patch=$(readlink -f "$1"); shift
+SR=/tmp/seedrepo; VC=/tmp/vcopy
+if [ ! -d $SR ]; then git -C /repo worktree add -q --detach $SR HEAD || exit 2; fi
+git -C $SR checkout -q --detach $(git -C /repo rev-parse HEAD) && git -C $SR checkout -q -- . && git -C $SR clean -fdq
+rsync -a --delete --exclude .git --exclude .build --exclude .out --exclude evidence /verif/ $VC/
+mkdir -p $VC/evidence
+sed -i "s#=> /repo#=> $SR#" $VC/harness/go.mod
+cd $SR
 if ! git apply --check "$patch" 2>/dev/null; then echo "SEEDTEST: patch does not apply: $patch"; exit 2; fi
 git apply "$patch"
-trap 'cd /repo && git checkout -- . && git clean -fdq -- . >/dev/null 2>&1' EXIT
+export GOFLAGS=-mod=mod GOPROXY=off GOSUMDB=off GOTOOLCHAIN=local
 if ! go build ./... 2>/tmp/seedtest-build.log || ! go build -tags verif ./... 2>>/tmp/seedtest-build.log; then echo "SEEDTEST: does not build"; tail -5 /tmp/seedtest-build.log; exit 2; fi
 if ! go test -vet=off -count=1 ./... >/tmp/seedtest-base.log 2>&1; then echo "SEEDTEST: baseline suite FAILS with this change"; grep -v "^ok\|no test files" /tmp/seedtest-base.log | tail -5; exit 2; fi
+git checkout -q -- go.mod go.sum 2>/dev/null
 echo "SEEDTEST: builds, baseline suite passes"
-cd /verif
+cd $VC
 for id in "$@"; do
-  out=$(VERIF_SEED=${VERIF_SEED:-1} ./check "$id" ${SEED_SCALE:+--scale $SEED_SCALE} 2>&1)
+  out=$(VERIF_REPO=$SR VERIF_SEED=${VERIF_SEED:-1} ./check "$id" ${SEED_SCALE:+--scale $SEED_SCALE} 2>&1)
   rc=$?
-  first=$(echo "$out" | grep -m1 -A1 "^VIOLATION" | tail -1 | cut -c1-260)
+  first=$(echo "$out" | grep -m1 -A1 "^VIOLATION" | tail -1 | cut -c1-300)
   echo "SEEDTEST: check=$id exit=$rc $(echo "$out" | grep -m1 '^TIMING' | sed 's/.*total_s=\([0-9.]*\).*/t=\1s/') $first"
 done
+git -C $SR checkout -q -- . ; git -C $SR clean -fdq
